@@ -249,7 +249,20 @@ def run(ctx, chk):
         ok = len(cb) == 1
         if ok:
             calls = [callee(t) for _, t in cb[0].calls()]
-            ok = calls == [want]
+            # one copying call on the whole input (clone / to_vec / to_owned / Vec::from are the same copy), nothing else
+            COPY = ("core::clone::Clone::clone", "alloc::slice::<impl [T]>::to_vec", "alloc::borrow::ToOwned::to_owned",
+                    "core::convert::From::from", "core::convert::Into::into")
+            plumbing = ("core::ops::deref::Deref::deref", "core::convert::AsRef::as_ref", "alloc::vec::Vec::<T, A>::as_slice")
+            real = [c_ for c_ in calls if c_ not in plumbing]
+            ok = len(real) == 1 and real[0] in COPY
+            if ok:
+                from discharge import VEx as _V
+                vx_ = _V(cb[0])
+                cbb, ct = [(bb_, t_) for bb_, t_ in cb[0].calls() if callee(t_) == real[0]][0]
+                a_ = strip_ref(vx_.operand(ct["args"][0], cbb))
+                while a_[0] == "call" and a_[1] in plumbing and a_[2]:
+                    a_ = strip_ref(a_[2][0])
+                ok = a_[0] == "path" and a_[1] == vx_.root_name(1) and not a_[2]
         chk.require(ok, "C11-e/raw-identity", "Custom::" + nm, "raw payload %s is not the identity copy" % nm, want.rsplit("::", 1)[-1],
                     cb[0].sp() if cb else None)
     # the raw block travels in the hand-written Tlv framing of `Vec<u8>` (tag 1C): tag || Tlv::serialize(len) || bytes, decided
@@ -289,6 +302,36 @@ def table(chk, zvt):
                             r.append((p[0][1], idv[1]))
                 if r and (rows is None or len(r) > len(rows)):
                     rows = r
+    if rows is None:
+        # the table as a named constant (`const VALID_PATHS: [(&str, u8); 21] = [..]`) that convert_dir iterates
+        import json as _json
+        names = set()
+        for i in sorted(b.reachable(0)):
+            for m_ in __import__("re").finditer(r'"uneval": "([^"]+)"', _json.dumps(b.blocks[i])):
+                names.add(m_.group(1))
+        for cb_ in list(zvt.bodies.values()):
+            if cb_.raw.get("parent") == b.id or cb_.id.startswith(b.id + "::{closure"):
+                for blk_ in cb_.blocks:
+                    for m_ in __import__("re").finditer(r'"uneval": "([^"]+)"', _json.dumps(blk_)):
+                        names.add(m_.group(1))
+        for nm_ in sorted(names):
+            kb = zvt.bodies.get(nm_)
+            if kb is None:
+                continue
+            kex = Ex(kb)
+            for i in sorted(kb.reachable(0)):
+                for st in kb.blocks[i]["stmts"]:
+                    if st["s"] == "assign" and st["rv"]["r"] == "agg" and st["rv"]["kind"] == "array":
+                        e = kex.rvalue(st["rv"])
+                        r = []
+                        for tup in e[2]:
+                            if tup[0] == "agg" and tup[1] == "tuple" and len(tup[2]) == 2:
+                                p = [x for x in walk(tup[2][0]) if x[0] == "const" and isinstance(x[1], str)]
+                                idv = tup[2][1]
+                                if p and idv[0] == "const":
+                                    r.append((p[0][1], idv[1]))
+                        if r and (rows is None or len(r) > len(rows)):
+                            rows = r
     if not chk.require(rows is not None, "C11-a/table", "convert_dir", "path/id table not found", "", b.sp()):
         return
     ids = [r[1] for r in rows]
